@@ -17,24 +17,24 @@ const modPath = "github.com/osteele/liquid"
 
 // World is the loaded program plus everything derived from it once per run.
 type World struct {
-	prog     *ssa.Program
-	pkgs     []*packages.Package
-	fns      map[string]*ssa.Function // short selector -> function
-	allFns   []*ssa.Function
-	typeIDs  map[string]int
-	typeByID map[int]types.Type
-	cons     map[string]*Contract // short selector -> contract
-	ifaces   map[string]*IfaceContract
-	defines  map[string]*Define
-	lemmas   []*Lemma
-	mods     map[*ssa.Function]map[string]bool // inferred heap write sets
-	repoDir  string
-	specErrs []string
-	scratchD *Decls
-	typeInvs map[string]*Clause
-	globalInvs map[string]*Clause
-	immutable  map[string]bool
-	macros     map[string]string
+	prog        *ssa.Program
+	pkgs        []*packages.Package
+	fns         map[string]*ssa.Function // short selector -> function
+	allFns      []*ssa.Function
+	typeIDs     map[string]int
+	typeByID    map[int]types.Type
+	cons        map[string]*Contract // short selector -> contract
+	ifaces      map[string]*IfaceContract
+	defines     map[string]*Define
+	lemmas      []*Lemma
+	mods        map[*ssa.Function]map[string]bool // inferred heap write sets
+	repoDir     string
+	specErrs    []string
+	scratchD    *Decls
+	typeInvs    map[string]*Clause
+	globalInvs  map[string]*Clause
+	immutable   map[string]bool
+	macros      map[string]string
 	filterNames map[*ssa.Function]string
 	fieldHeaps  map[string][]string
 }
@@ -292,6 +292,7 @@ func (w *World) structSort(t types.Type, st *types.Struct, d *Decls) string {
 		f := st.Field(i)
 		fs := w.sortOf(f.Type(), d)
 		fields = append(fields, fmt.Sprintf("(%s %s)", w.fieldSel(t, i), fs))
+		registerSelector(w.fieldSel(t, i), w.structCtor(t), i)
 	}
 	text := fmt.Sprintf("(declare-datatypes ((%s 0)) (((%s %s))))", name, w.structCtor(t), strings.Join(fields, " "))
 	if len(fields) == 0 {
